@@ -16,21 +16,20 @@
 // tokens ('#a0'), between the ancestor-cell and the cell tokens ('#m') and
 // after everything ('#z', '@zz'), each '#' key with the values v < w. A world
 // is a choice, for each carrier feature (a point, a lat/lng path, a memberless
-// relation - which has no cell tokens -, in the thorough tier also a polygon
-// area), of: absent / no searchable tag / one tag of the alphabet. Hence for
+// relation - which has no cell tokens -), of: absent / no searchable tag / one
+// tag of the alphabet; the thorough tier adds a polygon area that is absent or
+// carries one of '#!a=v' '#a0=w' '#m=v' '#z=w' '@zz'. Hence for
 // every key the token matching a Keyed, Tagged or prefix walk is, over the
 // family, the first token of an index, a middle one and the very last one,
 // with one and with two distinct values of the key, with and without a
 // following / preceding token of another key, in single-file worlds and in
 // each file of a world merged from two files (every ordered split of the
-// features into two non-empty files, the same features in both files, second
-// file built as an overlay index on the first).
+// features into two non-empty files, the same features in both files; and
+// the first feature in one file with the others in a second file built as an
+// overlay index on the first).
 package main
 
 import (
-	"syscall"
-	"os"
-	"time"
 	"fmt"
 	"sort"
 	"strings"
@@ -89,19 +88,43 @@ func tokenCarriers(tier string) []func(s wk.IDScheme) wk.FSpec {
 
 var tokenCarrierNames = []string{"point", "path", "relation", "area"}
 
-// tokenWorld is one member of the family: a choice per carrier.
+// tokenWorld is one member of the family: a choice (index into tokenChoices)
+// per carrier.
 type tokenWorld struct {
 	choice []int
+}
+
+// tokenCarrierChoices: the choices open to each carrier. The first three
+// carriers take every choice; the area of the thorough tier is absent or
+// carries one value of each '#' key or the last flag.
+func tokenCarrierChoices(tier string) [][]int {
+	cs := tokenChoices()
+	all := make([]int, len(cs))
+	for i := range all {
+		all[i] = i
+	}
+	out := [][]int{all, all, all}
+	if tier == "thorough" {
+		var area []int
+		for i, c := range cs {
+			switch c.name {
+			case "absent", "#!a=v", "#a0=w", "#m=v", "#z=w", "@zz":
+				area = append(area, i)
+			}
+		}
+		out = append(out, area)
+	}
+	return out
 }
 
 // tokenWorlds lists the family simplest-first: by number of features, then
 // number of tagged features, then number of distinct keys, then mixed-radix order.
 func tokenWorlds(tier string) []tokenWorld {
-	nc := len(tokenCarriers(tier))
 	cs := tokenChoices()
-	rad := make([]int, nc)
+	open := tokenCarrierChoices(tier)
+	rad := make([]int, len(open))
 	for i := range rad {
-		rad[i] = len(cs)
+		rad[i] = len(open[i])
 	}
 	type ranked struct {
 		w    tokenWorld
@@ -113,13 +136,15 @@ func tokenWorlds(tier string) []tokenWorld {
 		d := kit.Digits(i, rad)
 		var rk [3]int
 		keys := map[string]bool{}
-		for _, c := range d {
-			if cs[c].present {
+		for j := range d {
+			d[j] = open[j][d[j]]
+			c := cs[d[j]]
+			if c.present {
 				rk[0]++
 			}
-			if len(cs[c].tags) > 0 {
+			if len(c.tags) > 0 {
 				rk[1]++
-				keys[cs[c].tags[0].Key] = true
+				keys[c.tags[0].Key] = true
 			}
 		}
 		rk[2] = len(keys)
@@ -129,11 +154,9 @@ func tokenWorlds(tier string) []tokenWorld {
 		all = append(all, ranked{tokenWorld{d}, rk, i})
 	}
 	sort.SliceStable(all, func(a, b int) bool {
-		if all[a].rank != all[b].rank {
-			for k := range all[a].rank {
-				if all[a].rank[k] != all[b].rank[k] {
-					return all[a].rank[k] < all[b].rank[k]
-				}
+		for k := range all[a].rank {
+			if all[a].rank[k] != all[b].rank[k] {
+				return all[a].rank[k] < all[b].rank[k]
 			}
 		}
 		return all[a].i < all[b].i
@@ -268,9 +291,7 @@ func countPositions(r *kit.Result, where string, s wk.Spec) {
 			continue
 		}
 		pos := "in-the-middle"
-		switch {
-		case first == 0 && last == len(ts)-1:
-			pos = "are-the-whole-index"
+		switch { // never both: an index with any token has "*"
 		case first == 0:
 			pos = "start-the-index"
 		case last == len(ts)-1:
@@ -288,22 +309,30 @@ func specNames(s wk.Spec) string {
 	return "[" + strings.Join(parts, " ") + "]"
 }
 
-// buildTokenCompacts: the compact configurations of part C. File images are
-// built once per distinct subset of the features.
+// tokenImages caches compact file images by the spec they were built from,
+// for the life of the worker process: the image of a set of features is a
+// function of that set only, and the same set is a file of many worlds of the
+// family (a hit or a miss cannot change a result, only its cost).
+var tokenImages = map[string][]byte{}
+
+func tokenImage(s wk.Spec) ([]byte, error) {
+	k := s.String()
+	if d, ok := tokenImages[k]; ok {
+		return d, nil
+	}
+	d, err := wk.CompactData(s, 1)
+	if err == nil {
+		if len(tokenImages) >= 4096 {
+			tokenImages = map[string][]byte{}
+		}
+		tokenImages[k] = d
+	}
+	return d, err
+}
+
+// buildTokenCompacts: the compact configurations of part C.
 func buildTokenCompacts(r *kit.Result, spec wk.Spec) []built {
 	var out []built
-	images := map[string][]byte{}
-	image := func(s wk.Spec) ([]byte, error) {
-		k := s.String()
-		if d, ok := images[k]; ok {
-			return d, nil
-		}
-		d, err := wk.CompactData(s, 1)
-		if err == nil {
-			images[k] = d
-		}
-		return d, err
-	}
 	add := func(name, detail string, f func() (b6.World, error)) {
 		var w b6.World
 		var err error
@@ -313,10 +342,10 @@ func buildTokenCompacts(r *kit.Result, spec wk.Spec) []built {
 		}
 		out = append(out, built{name: name, detail: detail, w: w, expect: spec, err: err})
 	}
-	merged := func(parts ...wk.Spec) (b6.World, error) {
+	merged := func(parts ...wk.Spec) (*compact.World, error) {
 		w := compact.NewWorld()
 		for i, p := range parts {
-			d, err := image(p)
+			d, err := tokenImage(p)
 			if err != nil {
 				return nil, fmt.Errorf("build file %d: %w", i, err)
 			}
@@ -326,7 +355,13 @@ func buildTokenCompacts(r *kit.Result, spec wk.Spec) []built {
 		}
 		return w, nil
 	}
-	add("compact", "", func() (b6.World, error) { return merged(spec) })
+	asWorld := func(w *compact.World, err error) (b6.World, error) {
+		if err != nil {
+			return nil, err
+		}
+		return w, nil
+	}
+	add("compact", "", func() (b6.World, error) { return asWorld(merged(spec)) })
 	countPositions(r, "single file", spec)
 	n := len(spec)
 	for mask := 1; mask < (1<<n)-1; mask++ {
@@ -339,29 +374,45 @@ func buildTokenCompacts(r *kit.Result, spec wk.Spec) []built {
 			}
 		}
 		detail := "files " + specNames(a) + " then " + specNames(b)
-		add("compact-merged:two-self-contained-files", detail, func() (b6.World, error) { return merged(a, b) })
+		add("compact-merged:two-self-contained-files", detail, func() (b6.World, error) { return asWorld(merged(a, b)) })
 		countPositions(r, "file of a merged world", a)
-		add("compact-merged:overlay-index", detail+" (second built as an overlay index on the first)", func() (b6.World, error) {
-			w, err := merged(a)
-			if err != nil {
-				return nil, err
-			}
-			d, err := compact.BuildOverlayInMemory(ingest.MemoryFeatureSource(b.Features()), &compact.Options{Goroutines: 1, PointsScratchOutputType: compact.OutputTypeMemory}, w)
-			if err != nil {
-				return nil, fmt.Errorf("build overlay file: %w", err)
-			}
-			if err := w.(*compact.World).Merge(d); err != nil {
-				return nil, fmt.Errorf("merge overlay file: %w", err)
-			}
-			return w, nil
-		})
+		if mask == 1 {
+			// the first feature in a file of its own, the others in a second
+			// file built as an overlay index on it
+			add("compact-merged:overlay-index", detail+" (second built as an overlay index on the first)", func() (b6.World, error) {
+				w, err := merged(a)
+				if err != nil {
+					return nil, err
+				}
+				d, err := compact.BuildOverlayInMemory(ingest.MemoryFeatureSource(b.Features()), &compact.Options{Goroutines: 1, PointsScratchOutputType: compact.OutputTypeMemory}, w)
+				if err != nil {
+					return nil, fmt.Errorf("build overlay file: %w", err)
+				}
+				if err := w.Merge(d); err != nil {
+					return nil, fmt.Errorf("merge overlay file: %w", err)
+				}
+				return w, nil
+			})
+		}
 	}
-	add("compact-merged:same-features-in-both-files", "", func() (b6.World, error) { return merged(spec, spec) })
+	add("compact-merged:same-features-in-both-files", "", func() (b6.World, error) { return asWorld(merged(spec, spec)) })
 	return out
 }
 
-func runTokens(tier string, w tokenWorld, sch wk.IDScheme, menu []wk.RQ, sample bool) kit.Result {
+// scheme: the ID scheme rotates with the choices of all carriers but the
+// first, so that neighbouring worlds of the enumeration (which differ in the
+// first carrier) share file images.
+func (w tokenWorld) scheme() wk.IDScheme {
+	n := 0
+	for _, c := range w.choice[1:] {
+		n += c
+	}
+	return wk.Schemes[n%3]
+}
+
+func runTokens(tier string, w tokenWorld, menu []wk.RQ, sample bool) kit.Result {
 	var r kit.Result
+	sch := w.scheme()
 	spec, names := w.spec(tier, sch)
 	r.Nontrivial = true
 	r.Key = "token-positions:" + spec.String()
@@ -369,19 +420,7 @@ func runTokens(tier string, w tokenWorld, sch wk.IDScheme, menu []wk.RQ, sample 
 		r.Sample = map[string]interface{}{"part": "C (token positions)", "scheme": sch.Name, "spec": spec.String(), "model tokens": strings.Join(modelTokens(spec), " "), "queries": len(menu)}
 	}
 	desc := strings.Join(names, " ") + "\nmodel token list of the whole world: " + strings.Join(modelTokens(spec), " ")
-	t0 := time.Now()
-	bm := buildAll(spec, true, false)
-	t1 := time.Now()
-	judge(&r, bm, sch, desc, "token-positions:", menu, nil)
-	t2 := time.Now()
-	var ru0, ru1 syscall.Rusage
-	syscall.Getrusage(0, &ru0)
-	bc := buildTokenCompacts(&r, spec)
-	syscall.Getrusage(0, &ru1)
-	fmt.Fprintf(os.Stderr, "TIMING cbuild cpu user=%v sys=%v\n", time.Duration(ru1.Utime.Nano()-ru0.Utime.Nano()), time.Duration(ru1.Stime.Nano()-ru0.Stime.Nano()))
-	t3 := time.Now()
-	judge(&r, bc, sch, desc, "token-positions:", menu, nil)
-	t4 := time.Now()
-	fmt.Fprintf(os.Stderr, "TIMING membuild=%v memjudge=%v cbuild=%v(%d) cjudge=%v\n", t1.Sub(t0), t2.Sub(t1), t3.Sub(t2), len(bc), t4.Sub(t3))
+	judge(&r, buildAll(spec, true, false), sch, desc, "token-positions:", menu, nil)
+	judge(&r, buildTokenCompacts(&r, spec), sch, desc, "token-positions:", menu, nil)
 	return r
 }
